@@ -125,7 +125,7 @@ def u_delta(U):
         U.canary('canary-everywhere-v', ctx + facts + mdef + [Q(d - 1)] + powfact, T.ent(T.chain(R, ix, d - 1), 0, 0) == T.rmul(s_, absv), axioms=AXE)
 
 
-@unit('tensors.const.plain', props=('C19', 'C01'))
+@unit('tensors.const.plain', props=('C19', 'C01', 'C02'))
 def u_const(U):
     """const(n, v) without a zero list: every entry of the tensor equals v (all shapes, all v incl. negative, tiny, zero)."""
     d = z3.Int('d')
